@@ -61,8 +61,21 @@ def run(tier):
     nvec_tlc = sum(1 for _ in C.tagged_lines(out, "VEC"))
     rep_path = os.path.join(d, "est-replay.json")
     obs = os.path.join(d, "est-obs.ndjson")
-    C.harness("setup-run", ["replay", "est", out, rep_path, obs], timeout=3000, env=env)
+    # two processes, each preceded by one honest connection (verification off / on): an outcome must not depend on which
+    # TLS connection the process happened to open first (a cached connector would carry its verification setting over)
+    C.harness("setup-run", ["replay", "est", out, rep_path, obs], timeout=3000, env=dict(env, SETUP_WARMUP="noverify"))
     rep = C.load(rep_path)
+    rep2_path = os.path.join(d, "est-replay-2.json")
+    obs2 = os.path.join(d, "est-obs-2.ndjson")
+    C.harness("setup-run", ["replay", "est", out, rep2_path, obs2], timeout=3000, env=dict(env, SETUP_WARMUP="verify"))
+    rep2 = C.load(rep2_path)
+    rep2["lane"] = rep2["lane"] + " (first TLS connection of the process verifies)"
+    rep["lane"] = rep["lane"] + " (first TLS connection of the process does not verify)"
+    chk.report(rep2, "S->I: adversary scripts of MCSetupEst, second process")
+    if rep["counters"].get("warmup_noverify", 0) != 1 or rep2["counters"].get("warmup_verify", 0) != 1:
+        chk.tool_error("the warm-up connection was not made")
+    with open(obs, "a") as f:
+        f.write(open(obs2).read())
     os.remove(out)
     cnt = rep["counters"]
     if cnt.get("vectors", 0) != nvec_tlc or nvec_tlc == 0:
